@@ -152,7 +152,9 @@ def run_item(item):
                                 if not abs(out[i] - expr) <= max(2 * L.tol(r) * abs(dt), 1e-12 * max(abs(s[i]), abs(dt) * r[2])):
                                     bad.setdefault((alias, "wrong-vs-reference"), (dict(pt, dt=dt), f"{st}: got {out[i]!r}, reference {expr!r}"))
                     # other input representations of the same numbers: integer arrays, python lists (whole-number points only)
-                    if all(float(v).is_integer() for v in s + p) and backend != "c":
+                    # (only for models built from + - * of names and dyadic constants - E3 and degenerate families: integer arithmetic has other
+                    #  semantics for ** and / in numpy/jax, which is not the generator's business)
+                    if all(float(v).is_integer() for v in s + p) and backend != "c" and not key.startswith("rate|"):
                         import numpy as _np
                         reps = {"int-array": (_np.array(s, dtype=_np.int64), _np.array(p, dtype=_np.int64)), "list": ([float(v) for v in s], [float(v) for v in p]),
                                 "int-list": ([int(v) for v in s], [int(v) for v in p])}
